@@ -297,6 +297,21 @@ def lw(ctx):
                     out.append(bad('LW2', key, 'the waker taken from %s is not woken on every path to the function\'s exit' % W, loc=fn.loc(bb, i), fn=fname))
                 else:
                     out.append(ok('LW2', key, 'slot taken in the same critical section and the waker is woken on every path', loc=fn.loc(bb, i), fn=fname))
+        # --- LW4: a waker taken out of the slot is woken: taking it and letting it fall on the floor un-registers the sleeper silently
+        for fname, u in sorted(uses.items()):
+            fn = F.fn(fname)
+            for n_, (b2, m, t) in enumerate([c for c in u.calls.get(W, []) if c[1] == 'take']):
+                key = '%s|%s.take#%d' % (short(fname), W, n_)
+                if t['dest']['p'] or t['target'] is None:
+                    continue
+                woke = _flows_to_wake(ctx, fn, t['dest']['l'], b2)
+                exits = set(fn.exits())
+                if woke and (fn.must_pass(t['target'], exits, set(woke)) or b2 in woke):
+                    out.append(ok('LW4', key, 'the taken waker is woken on every path', loc=fn.loc(b2), fn=fname))
+                elif (fn.root or fname, W) in LW2_EXCEPT:
+                    out.append(ok('LW4', key, 'audited exception: ' + LW2_EXCEPT[(fn.root or fname, W)], loc=fn.loc(b2), fn=fname))
+                else:
+                    out.append(bad('LW4', key, 'a waker is taken out of %s and can be dropped without being woken: its owner stays asleep although it is no longer registered anywhere (%s)' % (W, slot['what']), loc=fn.loc(b2), fn=fname))
     floors = {'waker:reg': 3, 'waker:enable': 2, 'notify:reg': 1, 'notify:enable': 3, 'backpressure_release_notify:reg': 1,
               'backpressure_release_notify:enable': 2, 'notify_stream_closed:reg': 1, 'notify_stream_closed:enable': 2}
     for k, v in floors.items():
